@@ -59,8 +59,8 @@ CLAIMS["C18"] = dict(
 RULE_NOTE = ("Trusted: Coq kernel + VM; hand-written models Model/RuleEncode.v, RuleDecode.v, Mask.v, Flags.v, FilterRe.v (tied to rule/ by the correspondence: generated rules go through the real flags.Parse, rule.Build and rule.ToCommandLine and the model must agree); "
              "Spec/UapiRule.v (UAPI numbers by name and the fixed-offset reader of struct audit_rule_data, hand-written, cross-checked against /usr/include/linux/audit.h while writing); the generator as oracle for text spellings of numbers; os.Stat/GOARCH/user database as oracles. No axioms.")
 CLAIMS.update({
-    "C06": dict(text="Proof: C06_wire_exact (for every well-formed rule data the fixed-offset UAPI reader recovers list, action, count, mask, the triples in order with zero fill, buflen and the strings back to back), C06_accepted_rules_are_well_formed / C06_accepted_rules_decode (every rule the Build model accepts yields such data, so this holds for the bytes of every accepted rule), C06_tables_are_uapi and C06_layout (generated tables/offsets equal the UAPI constants by name), C06_mask_exact / C06_mask_range (exactly the requested bits). "
-                     "The independent checker chk_C06 decodes the bytes of the real Build for every generated rule and compares them with what the rule asks for in UAPI numbers.",
+    "C06": dict(text="Proof: C06_wire_exact (for every well-formed rule data the fixed-offset UAPI reader recovers list, action, count, mask, the triples in order with zero fill, buflen and the strings back to back), C06_accepted_rules_are_well_formed / C06_accepted_rules_decode (every rule the Build model accepts yields such data, so this holds for the bytes of every accepted rule), C06_tables_are_uapi and C06_layout (generated tables/offsets equal the UAPI constants by name), C06_one_triple_per_filter (for every parsed line the Build-from-text model accepts: one triple per filter in the order given - codes from the tables, numeric values through the modelled value parsers, string values as lengths with the strings appended - followed by the joined keys), C06_mask_exact / C06_mask_range (exactly the requested bits). "
+                     "The independent checker chk_C06 decodes the bytes of the real Build for every generated rule and compares them with what the rule asks for in UAPI numbers; the value parsers and Build-from-text are tied per value spelling and per line.",
                 note=RULE_NOTE + " PARTIAL: addFilter's per-field value parsers (strconv spellings, errno and message type names) are exercised by correspondence, not proved.", technique="Coq proof of the wire codec against a UAPI reader + generated-table obligations + correspondence", design="6 C06"),
     "C07": dict(text="Proof: C07_round_trip - for every parsed line (-a/-A syscall rule or -w file watch) that the Build model accepts within the property's domain (values without blanks, filesystem agreeing with a watch-shaped rule, known finding 103 excluded), ToCommandLine succeeds on the wire form, its text split at blanks is read by flags.Parse and built into the very same rule data, hence byte-identical wire data and the same text again; both print forms (-a and -w) are covered. Built from per-layer theorems: value codecs for every field class (C07_values_read_back: errno names, all 65536 record types, arch abbreviations, uid/gid sign, perm letters), the -F/-C scanners, syscall names against the arch in force, C07_mask_read_back, decode of encode, blank-splitting of the printed line. "
                      "The models of ToCommandLine, of the value parsers and of Build-from-text are tied to the implementation on every generated rule (text equality, value words, bytes, and the model's own way back). Three more defects were found while proving (two repaired, one recorded as known finding 103).",
